@@ -51,7 +51,7 @@ EOR
 
 gen_corpus() {
   build_generator
-  local VT="$VERIF/schemas/vt.yang $VERIF/schemas/vt-aug.yang" VOC="$VERIF/schemas/voc.yang" VK="$VERIF/schemas/vk.yang"
+  local VT="$VERIF/schemas/vt.yang $VERIF/schemas/vt-aug.yang" VOC="$VERIF/schemas/voc.yang" VK="$VERIF/schemas/vk.yang" VV="$VERIF/schemas/vval.yang"
   gen_pkg vtus vt U-simple false false false false -generate_simple_unions -- $VT &
   gen_pkg vtuw vt U-wrapper false true false false -- $VT &
   gen_pkg vocus voc U-simple false false false false -generate_simple_unions -- $VOC &
@@ -63,14 +63,17 @@ gen_corpus() {
   # auxiliary key corpus (C16): registered with core.RegisterAux, not part of core.Packages()
   REGFN=RegisterAux gen_pkg vkus vk U-simple false false false false -generate_simple_unions -- $VK &
   REGFN=RegisterAux gen_pkg vkuw vk U-wrapper false true false false -- $VK &
+  # auxiliary validation corpus (C07): min/max-elements, restricted unions, nested choices
+  REGFN=RegisterAux gen_pkg vvalus vval U-simple false false false false -generate_simple_unions -- $VV &
+  REGFN=RegisterAux gen_pkg vvaluw vval U-wrapper false true false false -- $VV &
   VEN_IMPORTS=""
   ven_wanted && gen_ven
   wait
   ven_wanted && gen_ven_finish
-  for p in vtus vtuw vocus vocuw voccs voccw vocco voccsh vkus vkuw; do [ -s "$WORK/gen/$p/$p.go" ] || die "corpus package $p was not generated"; done
+  for p in vtus vtuw vocus vocuw voccs voccw vocco voccsh vkus vkuw vvalus vvaluw; do [ -s "$WORK/gen/$p/$p.go" ] || die "corpus package $p was not generated"; done
   {
     echo "package main"; echo; echo "import ("
-    for p in vtus vtuw vocus vocuw voccs voccw vocco voccsh vkus vkuw $VEN_IMPORTS; do echo "	_ \"github.com/openconfig/ygot/zzverif/gen/$p\""; done
+    for p in vtus vtuw vocus vocuw voccs voccw vocco voccsh vkus vkuw vvalus vvaluw $VEN_IMPORTS; do echo "	_ \"github.com/openconfig/ygot/zzverif/gen/$p\""; done
     echo ")"
   } > "$WORK/imports_gen.go"
 }
